@@ -678,6 +678,9 @@ fn run_space_fn(ctx: &Ctx, sub: &'static str, n: u64, build: &(dyn Fn(u64) -> Op
 }
 
 pub fn run(ctx: &Ctx) {
+    // the watchdog's clock also covers the harness's own oracle work (reference models, DOM enumeration);
+    // the limit is generous so that machine load cannot turn a slow case into a verdict
+    ctx.hang_limit_s.store(300, std::sync::atomic::Ordering::Relaxed);
     let (sn, sbuild) = scoping_space(ctx);
     run_space_fn(ctx, "scoping", sn, &sbuild, "10 frame kinds (rule, @if at root, @else, @each, @for, @while, mixin defined here / at root, function, content block) x bodies of <= 2 (thorough 3) statements from an 8-statement alphabet with one nested frame holding <= 2 statements before / after (thorough: between) x 4 placements; probes of $x and $y after every program");
     let clp = closure_programs(ctx);
